@@ -194,7 +194,27 @@ func (h *hofGen) definer(lvl int) (ast.FuncLit, []hofClosure) {
 				ss = append(ss, ast.Assign{Name: n, Value: ast.Index{X: call(c.name), I: ilit(0)}})
 			}
 			cl = append(cl, hofClosure{n, 0})
-		case 7, 8:
+		case 7:
+			if r.Bool() {
+				ss = append(ss, h.observe(cl[r.Intn(len(cl))], log)...)
+				continue
+			}
+			// function literals written directly in a for iterator expression (they are created in the
+			// iterator context's copy of this frame); the last one escapes the loop
+			v := vars[r.Intn(len(vars))]
+			n, lv := h.fresh("zk"), h.fresh("zl")
+			lits := []ast.Node{thunk(name(v))}
+			if r.Bool() {
+				lits = append(lits, thunk(ast.ArrayLit{Elems: []ast.Node{name(v), name(vars[r.Intn(len(vars))])}}))
+			}
+			var it ast.Node = call("elems", ast.ArrayLit{Elems: lits})
+			if r.Chance(1, 3) {
+				it = call("zgone", lits[0])
+			}
+			ss = append(ss, ast.Assign{Name: n, Value: thunk(name(v))},
+				ast.For{Vars: []string{lv}, Iters: []ast.Node{it}, Body: ast.If{Cond: ast.Binary{Op: "==", L: call("toa", name(lv)), R: ast.StrLit{V: "function"}}, Then: ast.Assign{Name: n, Value: name(lv)}}})
+			cl = append(cl, hofClosure{n, 0})
+		case 8:
 			ss = append(ss, h.observe(cl[r.Intn(len(cl))], log)...)
 		default:
 			ss = append(ss, h.junk()...)
@@ -249,7 +269,11 @@ func (h *hofGen) generatorDefiner() (ast.FuncLit, int) {
 			}
 			ss = append(ss, ast.Assign{Name: g, Value: thunk(body)})
 		}
-		ss = append(ss, ast.Yield{X: name(g)})
+		if r.Chance(1, 3) {
+			ss = append(ss, call("zemit", name(g))) // the yield happens in a call below the frame that defined g
+		} else {
+			ss = append(ss, ast.Yield{X: name(g)})
+		}
 		if r.Chance(2, 3) {
 			ss = append(ss, ast.Assign{Name: v, Value: ast.Binary{Op: "+", L: name(v), R: h.delta()}})
 		}
@@ -261,8 +285,9 @@ func (h *hofGen) generatorDefiner() (ast.FuncLit, int) {
 }
 
 // HofProgram builds a closure-plumbing session. data selects the kind of the
-// captured values (0 int, 1 array, 2 string, -1 random).
-func HofProgram(r *core.Rng, data int) []ast.Node {
+// captured values (0 int, 1 array, 2 string, -1 random); generatorsOnly keeps
+// only the sessions whose closures are yielded by generators.
+func HofProgram(r *core.Rng, data int, generatorsOnly bool) []ast.Node {
 	if data < 0 {
 		data = r.Intn(3)
 	}
@@ -274,6 +299,7 @@ func HofProgram(r *core.Rng, data int) []ast.Node {
 		ast.Assign{Name: "zhold", Value: f([]string{"f"}, thunk(name("f")))},
 		ast.Assign{Name: "zgone", Value: f([]string{"e"}, ast.Block{Stmts: []ast.Node{ast.Yield{X: name("e")}, ast.Yield{X: ilit(0)}}})},
 		ast.Assign{Name: "zfirst", Value: f([]string{"f"}, ast.For{Vars: []string{"h"}, Iters: []ast.Node{call("zgone", name("f"))}, Body: ast.Return{X: name("h")}})},
+		ast.Assign{Name: "zemit", Value: f([]string{"e"}, ast.Block{Stmts: []ast.Node{ast.Assign{Name: "w", Value: ilit(5)}, ast.Yield{X: name("e")}}})},
 		ast.Assign{Name: "zdgen", Value: f([]string{"q"}, ast.Block{Stmts: []ast.Node{call("zdeep", name("q")), ast.Yield{X: name("q")}, call("zdeep", name("q"))}})},
 		ast.Assign{Name: "zsel", Value: f([]string{"w", "l"}, ast.If{Cond: ast.Binary{Op: "==", L: call("toa", name("w")), R: ast.StrLit{V: "function"}}, Then: name("w"),
 			Else: ast.If{Cond: name("l"), Then: ast.Index{X: ast.Index{X: name("w"), I: ilit(1)}, I: ast.Binary{Op: "-", L: ast.Unary{Op: "#", X: ast.Index{X: name("w"), I: ilit(1)}}, R: ilit(1)}}, Else: ast.Index{X: ast.Index{X: name("w"), I: ilit(1)}, I: ilit(0)}}})},
@@ -287,7 +313,7 @@ func HofProgram(r *core.Rng, data int) []ast.Node {
 	// iterator contexts are recycled within one top-level statement only: half of the sessions are one block
 	oneBlock := r.Bool()
 	for k := r.Range(1, 2); k > 0; k-- {
-		if r.Chance(2, 3) {
+		if !generatorsOnly && r.Chance(2, 3) {
 			fl, esc := h.definer(1)
 			fn, res := h.fresh("zm"), h.fresh("zq")
 			stmts = append(stmts, ast.Assign{Name: fn, Value: fl}, ast.Assign{Name: res, Value: call(fn, h.lit())})
